@@ -65,7 +65,7 @@ def actions():
     out = []
     for a in MULTI:
         for idx in (None, 0, 1, 2, 3, -1):
-            for val in ('new', 'equal', 'dup'):
+            for val in ('new', 'equal', 'dup') + (('empty',) if idx in (None, 0, 1) else ()):
                 out.append(('modify1x', a, idx, val, 'alice'))
         for cur in ('v0', 'v1', 'vlast', 'absent', None):
             for val in ('new', 'dup'):
@@ -75,6 +75,8 @@ def actions():
         for cur in ('v0', 'v1', 'vlast', 'absent', 'ref'):
             out.append(('delete20', a, cur, None, 'alice'))
         out.append(('set20', a, None, 'new', 'alice'))
+        out.append(('set20', a, None, 'empty', 'alice'))
+        out.append(('modify20', a, 'v0', 'empty', 'alice'))
         out.append(('modify1x', a, 0, 'new', 'bob'))
         out.append(('delete20', a, 'ref', None, 'bob'))
     for v in (True, False):
@@ -127,6 +129,8 @@ def materialise(action, snap, uid='1'):
             return v
         if v == 'new':
             return NEWV[name]
+        if v == 'empty':       # the falsy value of the type
+            return ('', '') if name == 'Application Specific Information' else ''
         if v == 'equal':
             i = idx_for_equal or 0
             return cur[i] if 0 <= i < len(cur) else NEWV[name]
